@@ -64,8 +64,26 @@ func VerifH_C16_LockDiscipline() {
 		err = st.Set(ctx, key, val)
 	case 2:
 		_, err = st.Has(ctx, key)
-	default:
+	case 3:
 		err = st.Delete(ctx, key)
+	default:
+		// an iterator over the store: creating it, stepping it, reading from it and closing it
+		vAssert(st.Set(ctx, key, val) == nil, "setup")
+		before := reached
+		it, ierr := st.Iterator(ctx, corekv.IterOptions{Prefix: []byte{'/'}})
+		vAssert(ierr == nil, "iterator-no-error")
+		if ierr == nil {
+			vAssert(reached > before, "iterator-created-on-the-root")
+			root.iterOnOp = func(op string) { vAssert(vMutexHeld(&ct.mu), "iterator-step-under-mutex") }
+			ok, nerr := it.Next()
+			vAssert(ok && nerr == nil, "iterator-yields-the-entry")
+			_, verr := it.Value()
+			vAssert(verr == nil, "iterator-value")
+			_ = it.Key()
+			vAssert(it.Close() == nil, "iterator-close")
+			vAssert(root.iterOps >= 3, "iterator-steps-reached-the-root")
+		}
+		reached = 1
 	}
 	vCover("accessed")
 	vAssert(err == nil, "no-error")
